@@ -22,7 +22,7 @@ RULE = ("one case = one generated valid world (validity model) x one option tupl
 
 
 PROBES = ["stale_report_replaced", "mkdir_p_output", "single_entry_schedule", "asset_income_only", "asset_fully_sold", "has_lost", "in_crypto_fee", "empty_window",
-          "midyear_from", "large_table", "huge_world", "six_assets", "whale_amounts", "skewed_large_world", "expense_fractions_over_120", "neg_balances_allowed", "equal_instants_in_world", "tie_transfer_funds_disposal", "tie_buy_and_sell"]
+          "midyear_from", "large_table", "huge_world", "six_assets", "whale_amounts", "dust_balance_left", "skewed_large_world", "expense_fractions_over_120", "neg_balances_allowed", "equal_instants_in_world", "tie_transfer_funds_disposal", "tie_buy_and_sell"]
 
 
 def make_case(seed, facts, index=0, weights=None):
@@ -48,6 +48,7 @@ def make_case(seed, facts, index=0, weights=None):
         "whales": rng.random() < 0.1,
         "shared_instants": rng.random() < 0.25,
         "huge": rng.random() < 0.004,
+        "dust": rng.random() < 0.1,
     }
     for flag, prob in sorted((weights or {}).items()):
         swarm[flag] = rng.random() < prob
@@ -277,6 +278,8 @@ def _probes(case, res):
         p["probe:six_assets"] = 1
     if any(W.D(r.get("crypto_in") or 0) >= 10**9 for _, t, r in W.all_rows(world) if t == "IN"):
         p["probe:whale_amounts"] = 1
+    if case["swarm"].get("dust"):
+        p["probe:dust_balance_left"] = 1
     if case["swarm"].get("skew"):
         p["probe:skewed_large_world"] = 1
         p["skew:" + case["swarm"]["skew"]] = 1
